@@ -113,6 +113,46 @@ META2 = {
     "C20": dict(file="bioscrape/simulator.pyx (ArrayDelayQueue.add_reaction)", needs="requested time one slot beyond the horizon", caught_by=["C20"], first_run="caught"),
 }
 
+# third round: told where both earlier changes were; asked for shared helpers, defaults, boundary values, reuse, ordering ...
+META3 = {
+    "C01": dict(file="bioscrape/simulator.pyx (SafeModelCSimInterface.initialize_reaction_inputs: abs(update)+abs(delay_update))", needs="safe + stochastic + a species consumed now and returned by the delayed part, at a count between the two requirements", caught_by=["C01"],
+                first_run="missed: only the 'no firing without reactants' direction was an obligation (C06)", strengthened="safe-interface liveness job: with every consumed species present the safe propensity is the rate law's own value (and the law is evaluated at all)"),
+    "C02": dict(file="bioscrape/types.pyx (StateDependentVolume.get_volume_step: volume_evaluate with swapped arguments)", needs="a growth law that mentions t", caught_by=["C02"],
+                first_run="missed: the growth law in the users job had no time dependence", strengthened="growth law with t; replay through py_get_volume_step"),
+    "C03": dict(file="bioscrape/types.pyx (Model._create_stochiometric_matrices skips NoDelay reactions)", needs="delayed reactants/products on a reaction whose delay type is None", caught_by=["C03"],
+                first_run="missed: delayed parts always came with a fixed delay", strengthened="half of the delayed-part structures use no delay type"),
+    "C04": dict(file="bioscrape/types.pyx (sympify with _clash2 instead of _clash1)", needs="a general rate over a name that is also a sympy constant (E, I, S, N, O, Q)", caught_by=["C04", "C02"],
+                first_run="missed by C04 (reported by C02, whose identifier pool has those names)", strengthened="C04 model over S, E, I / N, Q, O; a legal model that cannot be built is an obligation failure with replay"),
+    "C05": dict(file="bioscrape/simulator.pyx (ModelCSimInterface.__init__ copies the initial state)", needs="an interface built first, then Model.set_species, then a run through the old interface", caught_by=["C05", "C08"],
+                first_run="missed by every check", strengthened="C08/C05 job: an interface keeps following set_species / set_params, also across a second initialisation"),
+    "C06": dict(file="bioscrape/simulator.pyx (VolumeSSASimulator: `c_stoich += delayed` on the model's own array)", needs="a delay model run in the volume simulator, then simulated again", caught_by=["C06", "C08", "C11"],
+                first_run="missed: the interpreter rebound `x += y` instead of updating arrays in place, so the aliasing was invisible", strengthened="engine: in-place semantics for arrays/lists (self-test); all loops require the interface's stoichiometric matrices untouched"),
+    "C07": dict(file="bioscrape/simulator.pyx (VolumeSSASimulator rule_step starts at 0)", needs="stochastic + volume + an assignment rule with frequency dt", caught_by=["C07"],
+                first_run="counterexample found, not replayed (no rule model in the reuse scenario): exit 2", strengthened="reuse replay checks the first row against the assignment rules of every frequency"),
+    "C08": dict(file="bioscrape/types.pyx (Model.check_species rebinding species_values via np.where)", needs="interface built, model initialised again, set_species, run through the old interface", caught_by=["C08"],
+                first_run="engine error (generator expression at parse stage unsupported): exit 2", strengthened="engine fixes + language self-test corpus (pyxsym.selftest); same follow job as r3/C05"),
+    "C09": dict(file="bioscrape/types.pyx (Model.create_rule no longer forces dt for ode rules)", needs="an ode rule declared without a frequency + reactions firing between grid points", caught_by=["C09"],
+                first_run="missed: every rule set gave explicit frequencies", strengthened="rule set declared as 2-tuples (default frequencies)"),
+    "C10": dict(file="bioscrape/types.pyx (GammaDelay.get_delay draws erlang_rv)", needs="gamma delay with non-integer shape", caught_by=["C10"],
+                first_run="missed: GammaDelay.get_delay was not executed (rejection loop)", strengthened="delay-class contract with every sampler of random.pyx stubbed: exactly one gamma_rv(k, theta) draw; same-stream replay"),
+    "C11": dict(file="bioscrape/types.pyx (MassActionPropensity num_species = number of distinct reactants)", needs="order >= 3 with a repeat, volume != 1", caught_by=["C11"], first_run="caught"),
+    "C12": dict(file="bioscrape/sbmlutil.py (add_rule: `if not rule_frequency`)", needs="a rule with numeric frequency 0", caught_by=["C12"], first_run="missed", strengthened="rules with frequency 0 and 0.0"),
+    "C13": dict(file="bioscrape/types.pyx (Model.create_reaction zeroes species on both sides)", needs="a species that is reactant and product with different stoichiometries", caught_by=["C13", "C03"], first_run="caught"),
+    "C14": dict(file="bioscrape/types.pyx (write_sbml_model drops stochastic_model)", needs="write_sbml_model(stochastic_model=True) with a repeated reactant", caught_by=["C14"],
+                first_run="missed: only generate_sbml_model was exercised", strengthened="the written file's law must equal the generated document's; replay through the file"),
+    "C15": dict(file="bioscrape/pid_interfaces.py (reset to defaults removed)", needs="per-trajectory conditions with different keys + a second evaluation", caught_by=["C15"],
+                first_run="missed: conditions had the same keys (and the corresponding in-memory mutant had been dropped as equivalent)",
+                strengthened="condition dictionaries with different, non-nested key sets - which exposed a genuine defect (conditions leaking into later trajectories), repaired in /repo"),
+    "C16": dict(file="bioscrape/pid_interfaces.py (class-level cache of the gamma / beta normalisation keyed by parameter name)", needs="a second interface over the same parameter name with other hyper-parameters", caught_by=["C16"],
+                first_run="counterexample found (the interpreter shares the class across cases), not replayed: exit 2", strengthened="replay evaluates another interface over the same names first"),
+    "C17": dict(file="lineage/lineage.pyx (LineageVolumeCellState.__init__: `time or t0`)", needs="a cell state at time exactly 0 with a non-zero birth time, then copied", caught_by=["C17"],
+                first_run="counterexample found, no replay for data objects: exit 2", strengthened="cell-state replay over a grid with zeros, values set through the setters"),
+    "C18": dict(file="bioscrape/analysis.py (compute_Zj forward difference does not restore the parameter)", needs="method='forward_difference'", caught_by=["C18"], first_run="caught"),
+    "C19": dict(file="lineage/lineage.pyx (division code without the rule offset)", needs="a model with a division rule and a division event whose splitters differ", caught_by=["C19"],
+                first_run="counterexample found, not replayed: exit 2", strengthened="lineage replay with a rule (perfect) and an event (duplicate)"),
+    "C20": dict(file="bioscrape/simulator.pyx (ArrayDelayQueue.binomial_partition starts at start_index)", needs="partition of an advanced queue with far-ahead entries", caught_by=["C20"], first_run="caught"),
+}
+
 
 def main():
     results = {}
@@ -122,6 +162,8 @@ def main():
     rounds = [(META, SRC, DST, ("patch.diff", "demo.py", "notes.md"))]
     if os.path.isdir("/tmp/seed2_out") or os.path.isdir(os.path.join(DST, "r2")):
         rounds.append((META2, "/tmp/seed2_out", os.path.join(DST, "r2"), ("patch.diff", "demo.py", "notes.md", "patch_original_base.diff")))
+    if os.path.isdir("/tmp/seed3_out") or os.path.isdir(os.path.join(DST, "r3")):
+        rounds.append((META3, "/tmp/seed3_out", os.path.join(DST, "r3"), ("patch.diff", "demo.py", "notes.md")))
     for table, src_root, dst_root, files in rounds:
       for pid, m in sorted(table.items()):
         src = os.path.join(src_root, pid)
@@ -130,7 +172,7 @@ def main():
         for fn in files:
             if os.path.exists(os.path.join(src, fn)):
                 shutil.copy(os.path.join(src, fn), os.path.join(dst, fn))
-        key = pid if table is META else "r2/" + pid
+        key = pid if table is META else ("r2/" if table is META2 else "r3/") + pid
         meta = dict(property=pid, changed=m["file"], needs_to_manifest=m["needs"], reported_by_checks=m["caught_by"],
                     first_run=m["first_run"], strengthened=m.get("strengthened", ""),
                     confirmed=["tools/try_seed.sh: (1) `git diff` of the sub-agent's worktree equals patch.diff; (2) the pinned suite run in that worktree: 54 passed; "
